@@ -27,6 +27,7 @@ func zzCacheTx(withSig bool) *common.VersionedTransaction {
 func ZZ_C23() {
 	s := ZZNewStore()
 	s.custom = &config.Custom{}
+	s.custom.Node.CacheTTL = 7200 // entries do not expire inside the scenario (TTL expiry is outside the claim)
 	A, B := zzCacheTx(false), zzCacheTx(false)
 	A2 := &common.VersionedTransaction{SignedTransaction: common.SignedTransaction{Transaction: A.Transaction}}
 	var sg crypto.Signature
@@ -119,6 +120,7 @@ func ZZ_C23() {
 func ZZ_C23_requeue() {
 	s := ZZNewStore()
 	s.custom = &config.Custom{}
+	s.custom.Node.CacheTTL = 7200 // entries do not expire inside the scenario (TTL expiry is outside the claim)
 	A := zzCacheTx(false)
 	h := A.PayloadHash()
 	vr.Assert(s.CacheStoreTransaction(A) == nil, "store")
